@@ -45,7 +45,35 @@ def search(ctx):
     vios = []
     samples = []
     w = CH.World()
+    wbad = CH.World(project_config=CH.UNREADABLE)
     try:
+        # a project whose configuration does not load: every pre-execution event is answered, never allowed
+        nb = ctx.scale(120, 3000) * (3 if ctx.broken else 1)
+        bjobs, bmetas = [], []
+        for _ in range(nb):
+            value = CH.gen_value(r, wbad.proj)
+            stdin = json.dumps(value).encode()
+            args = list(r.pick(CH.FLAG_SETS))
+            bjobs.append({"stdin": stdin, "home": wbad.s.home, "args": args, "cwd": wbad.proj})
+            bmetas.append((value, stdin, args))
+        for (value, stdin, args), (rc, out, err) in zip(bmetas, H.run_many(bjobs)):
+            stats["evaluations"] += 1
+            stats["config_error_runs"] += 1
+            got = CH.parse_stdout(out)
+            post = isinstance(value, dict) and value.get("hook_event_name") == "PostToolUse"
+            dec = H.decision_of(out)[0] if len(got) == 1 and "json" in got[0] else None
+            stats["config_error_decision:" + str(dec)] += 1
+            bad = None
+            if rc != 0:
+                bad = "exit status %d" % rc
+            elif b"Traceback" in err:
+                bad = "traceback on stderr"
+            elif not post and not (len(got) == 1 and "json" in got[0] and isinstance(got[0]["json"], dict)):
+                bad = "stdout is not exactly one JSON object (configuration that does not load)"
+            elif dec in ("allow", "deny"):
+                bad = "a configuration that does not load produced " + dec
+            if bad:
+                vios.append({"input": {"stdin": stdin[:20000].decode("utf-8", "replace"), "stdin_len": len(stdin), "argv": args, "user_config": CH.UNREADABLE, "project_config": CH.UNREADABLE}, "observed": {"exit": rc, "stdout": out[:500].decode("utf-8", "replace"), "stderr_tail": err[-300:].decode("utf-8", "replace")}, "required": bad, "oracle": "hook-total"})
         n = ctx.scale(350, 10000) * (3 if ctx.broken else 1)
         jobs, metas = [], []
         for _ in range(n):
@@ -147,6 +175,7 @@ def search(ctx):
                 vios.append({"input": {"stdin": stdin.decode(), "injected_fault": spec}, "observed": {"exit": rc, "stdout": out[:300].decode("utf-8", "replace"), "stderr_tail": err[-300:].decode("utf-8", "replace")}, "required": bad + " (every internal failure yields {} or ask)", "oracle": "fault-injection"})
     finally:
         w.close()
+        wbad.close()
     return {"violations": vios[:5], "evaluations": stats["evaluations"], "distinct_nontrivial": stats["evaluations"] - stats.get("decision:None", 0), "stats": dict(stats), "samples": samples, "oracle": "subprocess: exit 0, one JSON object, no traceback, allow-only-if; injected exceptions"}
 
 
@@ -175,7 +204,9 @@ def replay(payload) -> int:
     inp = payload["input"]
     with H.Scratch() as s:
         s.user_config(inp.get("user_config", ""))
-        if inp.get("project_config"):
+        if inp.get("project_config") == CH.UNREADABLE:
+            CH.make_unreadable_user_config(s.home)
+        elif inp.get("project_config"):
             s.write("proj/.dippy", inp["project_config"])
         rc, out, err = H.run_hook(inp["stdin"].encode("utf-8", "replace"), home=s.home, args=inp.get("argv", []), cwd=s.proj)
     print("exit", rc, "stdout", out[:300], "stderr", err[-200:])
